@@ -54,7 +54,7 @@ func checkC14(c *km.Ctx) {
 		}
 		for _, ci := range km.CallsIn(fn) {
 			if km.CalleeFull(ci.Common()) == backend {
-				r.Add("R-C14-1", km.FuncName(fn), "who may call the password backend", posOf(c, ci), "only checkUserPassword", fn.Name(), fn == cup)
+				r.Add("R-C14-1", km.FuncName(fn), "who may call the password backend", posOf(c, ci), "only checkUserPassword", km.NameOf(fn), fn == cup)
 			}
 		}
 	}
@@ -426,7 +426,7 @@ func checkC14(c *km.Ctx) {
 		if fn.Pkg == nil || fn.Pkg.Pkg.Path() != KMD || own[top] {
 			continue
 		}
-		if _, exempt := initExempt[top.Name()]; exempt {
+		if _, exempt := initExempt[km.NameOf(top)]; exempt {
 			continue
 		}
 		km.Instrs(fn, func(in ssa.Instruction) {
